@@ -207,7 +207,7 @@ theorem crash_restart_resync_safe (c : Conf) (ms : List Move) (hok : allAssumed 
   have r := resync_spec (withFaults (crashAt Facts.good k j (run Facts.good (init c) ms) m) 0 0) order
     (inv_withFaults _ 0 0 h1)
   have : (step Facts.good (crashAt Facts.good k j (run Facts.good (init c) ms) m) (.resync order 0 0)).1.pods =
-      (crashAt Facts.good k j (run Facts.good (init c) ms) m).pods := r.2.1
+      (crashAt Facts.good k j (run Facts.good (init c) ms) m).pods := r.2.1.1
   rw [this]
   exact (crashAt_synced Facts.good _ m k j).2.2
 
